@@ -278,6 +278,43 @@ fn loop_filter_family() -> Vec<gen::Program> {
     out
 }
 
+/// repetition: a construct that works once works the thousandth time in the same render (contexts
+/// and frames are pooled and recycled; nothing may accumulate from use to use)
+fn repetition_clause(acc: &Acc) {
+    let env = Environment::new();
+    let shapes: Vec<(&str, String, Box<dyn Fn(usize) -> String>)> = vec![
+        ("macro_call", "{% macro m(a, b=1) %}<{{ a }}:{{ b }}>{% endmacro %}{% for i in range(N) %}{{ m(i) }}{{ m(i, b=i) }}{% endfor %}".into(), Box::new(|n| (0..n).map(|i| format!("<{}:1><{}:{}>", i, i, i)).collect())),
+        ("macro_call_top_level", "{% macro m(a) %}[{{ a }}]{% endmacro %}REPEAT".into(), Box::new(|n| (0..n).map(|i| format!("[{}]", i)).collect())),
+        ("call_block", "{% macro w(a) %}({{ caller(a) }}){% endmacro %}{% for i in range(N) %}{% call(q) w(i) %}{{ q }}{% endcall %}{% endfor %}".into(), Box::new(|n| (0..n).map(|i| format!("({})", i)).collect())),
+        ("macro_in_nested_loops", "{% macro m(a) %}{{ a }},{% endmacro %}{% for i in range(N) %}{% for j in range(3) %}{{ m(j) }}{% endfor %}{% endfor %}".into(), Box::new(|n| "0,1,2,".repeat(n))),
+        ("macro_calling_macro", "{% macro inner(a) %}{{ a }}{% endmacro %}{% macro outer(a) %}[{{ inner(a) }}{{ inner(a) }}]{% endmacro %}{% for i in range(N) %}{{ outer(i) }}{% endfor %}".into(), Box::new(|n| (0..n).map(|i| format!("[{}{}]", i, i)).collect())),
+        ("with_and_set_block", "{% for i in range(N) %}{% with a = i %}{% set c %}{{ a }}{% endset %}{{ c }};{% endwith %}{% endfor %}".into(), Box::new(|n| (0..n).map(|i| format!("{};", i)).collect())),
+        ("filter_block_and_loop_else", "{% for i in range(N) %}{% filter upper %}a{% for j in [] %}{% else %}e{% endfor %}{% endfilter %}{% endfor %}".into(), Box::new(|n| "AE".repeat(n))),
+        ("recursive_loop", "{% for i in range(N) %}{% for x in [[1], [2]] recursive %}{% if x is iterable %}{{ loop(x) }}{% else %}{{ x }}{% endif %}{% endfor %}{% endfor %}".into(), Box::new(|n| "12".repeat(n))),
+        ("namespace_counter", "{% set ns = namespace(c=0) %}{% for i in range(N) %}{% set ns.c = ns.c + 1 %}{% endfor %}{{ ns.c }}".into(), Box::new(|n| n.to_string())),
+    ];
+    for n in [1usize, 2, 60, 101, 300, 2000] {
+        for (name, src, want) in &shapes {
+            acc.eval(1);
+            let src = if src.contains("REPEAT") { src.replace("REPEAT", &(0..n).map(|i| format!("{{{{ m({}) }}}}", i)).collect::<String>()) } else { src.replace('N', &n.to_string()) };
+            let got = catch(|| env.render_str(&src, context! {}).map_err(|e| e.to_string()));
+            let want = want(n);
+            match got {
+                Ok(Ok(s)) if s == want => {
+                    acc.outcome("repetition ok");
+                    acc.nontrivial(fnv(format!("{}|{}", name, n).as_bytes()));
+                }
+                other => acc.fail(Failure {
+                    key: format!("repetition differs shape={}", name),
+                    case: format!("{} x{}", name, n),
+                    detail: format!("{} repetitions: got {:?} (expected {} bytes: {:?}...)", n, other.map(|r| r.map(|s| s.chars().take(80).collect::<String>())), want.len(), want.chars().take(60).collect::<String>()),
+                    replay: json!({"kind": "repetition", "shape": name, "n": n, "source": src.chars().take(2000).collect::<String>()}),
+                }),
+            }
+        }
+    }
+}
+
 /// loop object fields for every iterated sequence kind, computed directly
 fn loop_object_clause(acc: &Acc) {
     let env = Environment::new();
@@ -350,7 +387,9 @@ pub fn main(args: Args) -> i32 {
     if let Some(p) = &args.replay {
         let doc = load_replay(p);
         let j = &doc["replay"];
-        if j["kind"] == "loop_object" {
+        if j["kind"] == "repetition" {
+            repetition_clause(&acc);
+        } else if j["kind"] == "loop_object" {
             loop_object_clause(&acc);
         } else if j["depth"] == 0 {
             let idx = j["index"].as_u64().unwrap();
@@ -377,6 +416,7 @@ pub fn main(args: Args) -> i32 {
         };
     }
     loop_object_clause(&acc);
+    repetition_clause(&acc);
     {
         let fam = closure_family();
         acc.count("programs_closure_family", fam.len() as u64);
@@ -412,7 +452,7 @@ pub fn main(args: Args) -> i32 {
             level: "exploration",
             tier: args.tier,
             seed: args.seed,
-            rule: format!("every program of the depth-1 and depth-2 spaces of G (single template, loop controls){} x 3 contexts rendered by the engine and by the reference interpreter R (independent tree walker over its own value type: scoping per construct, per-iteration loop scope, macro closures with definition-frame values, argument binding with defaults and keywords, call blocks, loop recursion, for-else, loop filters, unpacking, break/continue); oracle: identical output, or both fail, and an immediate second render of the same template and context gives the same result; plus the loop object: every field (index, index0, revindex, revindex0, first, last, length, previtem, nextitem) printed in every iteration for 11 iterated sequence kinds x lengths 0..4 against directly computed values; plus the closure family (depth label d0): 4 name/outer-binding cases x 4 assignment forms x 16 enclosing constructs (bare, if/else arms taken and not, for/else with 0 or 1 iterations, loop else bodies reading names the loop bound as target / in its body / under a rejecting filter, with, filter, set block, autoescape, nested ifs) x 4 holders (macro called with both truth values, outer value changed after declaration, call block in a loop, macro in a macro), each reading the name inside the construct and, in one of two variants, after it; plus the loop-filter family: 8 filter expressions naming `loop`, the enclosing target or outer names x 6 constructs around the filtered loop x (inside one loop, inside two, at the top). distinct non-trivial = (program, context) pairs on which engine and reference agree on a successful render", if args.tier == Tier::Thorough { " and every 13th program of depth 3" } else { "" }),
+            rule: format!("every program of the depth-1 and depth-2 spaces of G (single template, loop controls){} x 3 contexts rendered by the engine and by the reference interpreter R (independent tree walker over its own value type: scoping per construct, per-iteration loop scope, macro closures with definition-frame values, argument binding with defaults and keywords, call blocks, loop recursion, for-else, loop filters, unpacking, break/continue); oracle: identical output, or both fail, and an immediate second render of the same template and context gives the same result; plus the loop object: every field (index, index0, revindex, revindex0, first, last, length, previtem, nextitem) printed in every iteration for 11 iterated sequence kinds x lengths 0..4 against directly computed values; plus the closure family (depth label d0): 4 name/outer-binding cases x 4 assignment forms x 16 enclosing constructs (bare, if/else arms taken and not, for/else with 0 or 1 iterations, loop else bodies reading names the loop bound as target / in its body / under a rejecting filter, with, filter, set block, autoescape, nested ifs) x 4 holders (macro called with both truth values, outer value changed after declaration, call block in a loop, macro in a macro), each reading the name inside the construct and, in one of two variants, after it; plus repetition (9 constructs - macro calls from loops and from the top level, call blocks, nested macros, with / set blocks, filter blocks with loop else, recursive loops, a namespace counter - repeated 1 .. 2000 times in one render against directly computed output); plus the loop-filter family: 8 filter expressions naming `loop`, the enclosing target or outer names x 6 constructs around the filtered loop x (inside one loop, inside two, at the top). distinct non-trivial = (program, context) pairs on which engine and reference agree on a successful render", if args.tier == Tier::Thorough { " and every 13th program of depth 3" } else { "" }),
             exhaustive: true,
             bound: json!({"depth_full": 2}),
             assumptions: vec![
